@@ -23,6 +23,7 @@ mod c17;
 mod c18;
 mod c19;
 mod c20;
+mod sys;
 
 
 use std::io::{BufRead, Write};
